@@ -192,6 +192,7 @@ class ServerCfg(dict):
     banner_after_client bool  say nothing until the client has sent its identification string
     maxstartups_after   int   connections numbered above this get "Exceeded MaxStartups" and are closed
     refuse_after        int   connections numbered above this are refused
+    negotiate           bool  disconnect a client whose KEXINIT shares no key exchange / host key / cipher / compression with the server's
     """
 
 
@@ -348,6 +349,18 @@ class SshServer:
             self.client_kexinit = ck
             w.log(ev='send', n=self.n, type=20, kex=[x.decode('latin-1') for x in ck['kex']],
                   key=[x.decode('latin-1') for x in ck['key']], trailing=ck['trailing'])
+            if self.cfg.get('negotiate') and not self.done:
+                # RFC 4253 7.1: a server that negotiates - no algorithm in common in some list (MACs left aside: an AEAD cipher needs none),
+                # and it disconnects
+                mine = full_lists(self.cfg.get('kexinit', DEFAULT_KEXINIT))
+                for f in ('kex', 'key', 'enc_c2s', 'enc_s2c', 'comp_c2s', 'comp_s2c'):
+                    if not [x for x in ck.get(f, []) if x in mine.get(f, [])]:
+                        w.log(ev='negotiation_failed', n=self.n, field=f)
+                        disc = bytes([MSG_DISCONNECT]) + wire.u32(3) + wire.string(b'no matching ' + f.encode() + b' found') + wire.string(b'')
+                        self.emit_packet(sock, 'disconnect', disc)
+                        sock.push(EOF)
+                        self.done = True
+                        return
         elif t == MSG_KEXDH_INIT:
             w.log(ev='send', n=self.n, type=30)
             if self.done:
